@@ -29,6 +29,7 @@ type prepDump struct {
 	Nodes      map[string]string   `json:"nodes"` // id -> kind
 	Edges      []string            `json:"edges"` // "m <- n : type"
 	Outputs    map[string][]string `json:"outputs"`
+	OutputReq  map[string][]string `json:"output_required"` // output id -> required top-level properties of its schema
 	Namespaces []string            `json:"namespaces"`
 	InputProps []string            `json:"input_props"`
 }
@@ -41,7 +42,11 @@ func describeType(t schema.Type, depth int) string {
 	case *schema.ObjectSchema:
 		keys := make([]string, 0, len(tt.PropertiesValue))
 		for k, p := range tt.PropertiesValue {
-			keys = append(keys, k+":"+describeType(p.TypeValue, depth+1))
+			req := "?"
+			if p.Required() {
+				req = "!"
+			}
+			keys = append(keys, k+req+":"+describeType(p.TypeValue, depth+1))
 		}
 		sort.Strings(keys)
 		return "obj{" + strings.Join(keys, ",") + "}"
@@ -55,11 +60,22 @@ func describeType(t schema.Type, depth int) string {
 	case *schema.RefSchema:
 		return "ref"
 	}
+	if oo, ok := t.(interface {
+		Types() map[string]schema.Object
+		DiscriminatorFieldName() string
+	}); ok {
+		keys := make([]string, 0, len(oo.Types()))
+		for k, o := range oo.Types() {
+			keys = append(keys, k+":"+describeType(o, depth+1))
+		}
+		sort.Strings(keys)
+		return "oneof<" + oo.DiscriminatorFieldName() + ">{" + strings.Join(keys, ",") + "}"
+	}
 	return string(t.TypeID())
 }
 
 func dumpPrepared(pw workflow.ExecutableWorkflow) *prepDump {
-	d := &prepDump{Nodes: map[string]string{}, Outputs: map[string][]string{}}
+	d := &prepDump{Nodes: map[string]string{}, Outputs: map[string][]string{}, OutputReq: map[string][]string{}}
 	for id, n := range pw.DAG().ListNodes() {
 		d.Nodes[id] = string(n.Item().Kind)
 		for dep, ty := range n.OutstandingDependencies() {
@@ -69,6 +85,14 @@ func dumpPrepared(pw workflow.ExecutableWorkflow) *prepDump {
 	sort.Strings(d.Edges)
 	for id, o := range pw.OutputSchema() {
 		d.Outputs[id] = []string{describeType(o.Schema(), 0), fmt.Sprint(o.Error())}
+		req := []string{}
+		for k, p := range o.Schema().Properties() {
+			if p.Required() {
+				req = append(req, k)
+			}
+		}
+		sort.Strings(req)
+		d.OutputReq[id] = req
 	}
 	for ns, objs := range pw.Namespaces() {
 		keys := make([]string, 0, len(objs))
